@@ -3,7 +3,7 @@
    roundtrip_ok / same_uid / validate_agrees / canonical_idempotent are defined in Spec.v. *)
 From Coq Require Import List NArith Bool.
 From Verif.Common Require Import Labels.
-From Verif.C06 Require Import Model Spec TokProofs ParseProofs ImageProofs ValidateProofs FuelProofs PinnedProofs Proofs NormProofs.
+From Verif.C06 Require Import Model Spec TokProofs ParseProofs ImageProofs ValidateProofs FuelProofs PinnedProofs Proofs NormProofs Visitor VisitorProofs.
 Import ListNotations.
 Open Scope N_scope.
 
@@ -30,13 +30,20 @@ Theorem c06_print_parse_refuted :
 Proof. exact print_parse_refuted_pinned. Qed.
 Print Assumptions c06_print_parse_refuted.
 
-(* ... and it holds for the pinned printer on every parsed selector without a negation directly under a negation.
-   PARTIAL: nothing is proved here about pinned-printer selectors containing !(!x) beyond the refutation above. *)
-Theorem c06_print_parse_pinned_partial : forall s a, parse s = Ok a -> nn_free a = true ->
-  exists a', parse (to_string false a) = Ok a' /\ to_string false a' = to_string false a
-             /\ (forall L : labels, eval a' L = eval a L).
-Proof. exact print_parse_pinned_partial. Qed.
-Print Assumptions c06_print_parse_pinned_partial.
+(* ... and the complete description of when it holds for the pinned printer, at the level the property speaks
+   about (canonical text / identity hash of the re-parsed selector), for every accepted input: the text is
+   the same if and only if the parsed AST has no negation directly under a negation; same for the UID under
+   an injective hash.  (These replace the former *_pinned_partial theorems, which were the "if" halves.) *)
+Theorem c06_pinned_text_iff : forall s a a', parse s = Ok a -> parse (to_string false a) = Ok a' ->
+  (to_string false a' = to_string false a <-> nn_free a = true).
+Proof. exact pinned_text_iff. Qed.
+Print Assumptions c06_pinned_text_iff.
+
+Theorem c06_pinned_uid_iff : forall (H : bytes -> bytes), (forall x y, H x = H y -> x = y) ->
+  forall s a a', parse s = Ok a -> parse (to_string false a) = Ok a' ->
+  (uid H false a' = uid H false a <-> nn_free a = true).
+Proof. exact pinned_uid_iff. Qed.
+Print Assumptions c06_pinned_uid_iff.
 
 (* What DOES hold for the pinned printer on every accepted input, !(!x) included: the canonical text is
    accepted again and means the same on all label maps.  (So the finding is confined to text/UID stability.) *)
@@ -67,15 +74,18 @@ Theorem c06_same_uid : forall (H : bytes -> bytes) s, same_uid parse (to_string 
 Proof. exact same_uid_fixed. Qed.
 Print Assumptions c06_same_uid.
 
-Theorem c06_same_uid_pinned_partial : forall (H : bytes -> bytes) s a a', parse s = Ok a -> nn_free a = true ->
-  parse (to_string false a) = Ok a' -> uid H false a' = uid H false a.
-Proof. exact same_uid_pinned_partial. Qed.
-Print Assumptions c06_same_uid_pinned_partial.
 
 (* The validation entry point accepts exactly the expressions the parser accepts (all byte strings). *)
 Theorem c06_validate_iff_parse : forall s, validate_agrees parse validate s.
 Proof. exact validate_iff_parse. Qed.
 Print Assumptions c06_validate_iff_parse.
+
+(* Same, as one equation: Validate (parseRoot with validateOnly = true, modelled separately in Model.v: validate_root, validate_op ...)
+   returns exactly the outcome of Parse with the AST forgotten - acceptance, rejection, and no other case. *)
+Theorem c06_validate_same_outcome : forall s,
+  validate s = match parse s with Ok _ => Ok tt | Reject => Reject | OutOfFuel => OutOfFuel end.
+Proof. exact validate_parse. Qed.
+Print Assumptions c06_validate_same_outcome.
 
 (* Canonical form is a fixed point of canonicalisation (repaired printer); refuted for the pinned one. *)
 Theorem c06_canonical_idempotent : forall s, canonical_idempotent (canon true) s.
@@ -92,6 +102,31 @@ Print Assumptions c06_canonical_idempotent_refuted.
 Theorem c06_parse_image_wf : forall s a, parse s = Ok a -> wfb true a = true.
 Proof. exact parse_wf. Qed.
 Print Assumptions c06_parse_image_wf.
+
+(* ---- Selector.AcceptVisitor(PrefixVisitor{p}) (ast.go), model in Visitor.v ----
+   The visited selector's canonical text parses back to the identical prefixed AST whenever p consists of
+   identifier bytes and every prefixed name still fits MaxLabelLength; it then means "the original selector on
+   the p-part of the label map"; and WITHOUT the length condition the round trip is false (finding
+   prefix-label-too-long: "pcns." + a 510-byte label). *)
+Theorem c06_prefix_roundtrip : forall p s a, forallb ident_char p = true -> parse s = Ok a -> prefix_fits p a = true ->
+  parse (to_string true (prefix_labels p a)) = Ok (prefix_labels p a).
+Proof. exact prefix_roundtrip. Qed.
+Print Assumptions c06_prefix_roundtrip.
+
+Theorem c06_prefix_eval : forall p a (L : labels), eval (prefix_labels p a) L = eval a (unprefix p L).
+Proof. exact prefix_eval. Qed.
+Print Assumptions c06_prefix_eval.
+
+Theorem c06_prefix_too_long_refuted :
+  exists p s a, forallb ident_char p = true /\ parse s = Ok a /\ parse (to_string true (prefix_labels p a)) = Reject.
+Proof. exact prefix_too_long_refuted. Qed.
+Print Assumptions c06_prefix_too_long_refuted.
+
+Theorem c06_visitor_meets_spec : forall (H : bytes -> bytes) p s a maps,
+  forallb ident_char p = true -> parse s = Ok a -> prefix_fits p a = true ->
+  ok_pcase (model_pcase H s p maps a) = true.
+Proof. exact visitor_meets_spec. Qed.
+Print Assumptions c06_visitor_meets_spec.
 
 (* The fuel of the model's recursions never runs out: the three-valued results are really two-valued. *)
 Theorem c06_no_out_of_fuel : forall s, tokenize s <> OutOfFuel /\ parse s <> OutOfFuel /\ validate s <> OutOfFuel.
